@@ -43,7 +43,7 @@ NAMES = ["x", "y", "z", "w"]
 FRESH = ["p", "q", "r", "s", "u", "v", "g", "h"]
 SPARE = ["n%d" % i for i in range(40)]     # never exhausted within a program (at most 30 steps)
 VARS = ["a", "b", "c", "d"]
-LABPOOL = {"i": [3, 1, 2, 7, 5], "f": [0.5, 2.5, 1.5, 4.0], "s": ["k", "m", "l", "n"]}
+LABPOOL = {"i": [3, 0, 2, 7, 5], "f": [0.5, 0.0, 1.5, 4.1], "s": ["k", "", "l", "n"]}      # (0, 0.0 and '' are labels like any other; 4.1 is not float32-safe)
 OPS = ["set", "set", "set", "set", "reject", "reject", "del", "rename_ds", "rename_var", "dims", "set_axis", "axes_set", "axes_set_int",
        "axes_set_renamed", "label", "append", "rename_keys", "rename_axes", "copy", "derive"]
 
@@ -124,6 +124,8 @@ def run_case(case):
         s = case["seed"]
         la = LABPOOL["i"][:2 + s % 2]
         lb = LABPOOL["i"][1:3 + s % 3]
+        if s % 5 == 4:
+            lb = [4.1, 0.0] + ([0.5] if s % 2 else [])          # an int-labelled and a float-labelled variable (0 == 0.0 is shared)
         a1 = mkarr(da, ["x"], [la], 10)
         a2 = mkarr(da, ["x", "y"], [lb, LABPOOL["s"][:2]], 50)
         ds = lib(lambda: da.Dataset(a=a1, b=a2), what="Dataset(a=x%s, b=(x%s, y))" % (la, lb), sig=sig)
